@@ -128,7 +128,7 @@ func runC01(c *Ctx) {
 
 	fCreate := p.Method(pkgInmem, "ResourceCollection", "Create")
 	c.mustCutEach("R01.3", "Create effects", fCreate, effects, 3, map[string]EdgePred{
-		"id absent": absent,
+		"id absent":                  absent,
 		"SetOwner(copy, owner)==nil": FactEdge("nil(call:(*pkg/resource.Metadata).SetOwner(call:(pkg/resource.Resource).Metadata(" + dCopy + "),param#3))"),
 	})
 	c.MustCut("R01.3", "ErrAlreadyExists ⊣ {id present}", fCreate, p.CallTo(pkgInmem+".ErrAlreadyExists"), CutSpec{Edges: exists}, 1)
@@ -296,7 +296,10 @@ func c01Effects(c *Ctx, rule string, fCreate, fUpdate, fDestroy *ssa.Function) {
 
 		c.Check(ok, rule, FuncName(f)+" :: delete(storage, ptr.ID())", fpos(f), "one delete keyed by the target's ID", "storage removal is not a single delete keyed by the target's ID")
 
-		lookups := Find(f, func(in ssa.Instruction) bool { l, ok := in.(*ssa.Lookup); return ok && LoadsField(l.X, "ResourceCollection", "storage") })
+		lookups := Find(f, func(in ssa.Instruction) bool {
+			l, ok := in.(*ssa.Lookup)
+			return ok && LoadsField(l.X, "ResourceCollection", "storage")
+		})
 		ok = len(lookups) == 1 && Glob("call:(pkg/resource.*).ID(param#2)", p.Desc(lookups[0].(*ssa.Lookup).Index))
 		c.Check(ok, rule, FuncName(f)+" :: lookup keyed by the target's ID", fpos(f), "yes", "the existence lookup does not use the target's ID")
 
@@ -662,9 +665,9 @@ func wrapperDelegation(c *Ctx, rule string) {
 
 	// implementations that are stores themselves or translate to another protocol, not wrappers
 	notWrappers := map[string]string{
-		pkgInmem + ".State":               "the store itself",
+		pkgInmem + ".State":                 "the store itself",
 		"pkg/state/protobuf/client.Adapter": "gRPC client (covered by C11 rules)",
-		"pkg/state.coreWrapper":            "adds helper methods on top of an embedded CoreState (methods promoted, not re-implemented)",
+		"pkg/state.coreWrapper":             "adds helper methods on top of an embedded CoreState (methods promoted, not re-implemented)",
 	}
 
 	for _, path := range p.OwnPackages() {
